@@ -140,7 +140,8 @@ def pick_variant(ctx, voxels, cseg_ok=True, scales=None):
     else:
         storage = rng.choice(STORAGES[:3])
     kind = "random" if (method == "average" and rng.random() < 0.6) else "unique"
-    outside = None
+    # --outside-value of the averaging method (border blocks completed with it)
+    outside = rng.choice([None, None, 0, 7]) if method == "average" else None
     return {"method": method, "dtype": dtype, "channels": channels, "encoding": enc,
             "storage": storage, "kind": kind, "outside": outside}
 
@@ -219,7 +220,11 @@ def generator_jobs(ctx):
              ([[1, 1], [3, 1], [12, 1]], 1, [130, 5, 2]), ([[1, 1], [5, 1], [35, 4]], 2, [70, 8, 3]),
              ([[1, 1], [1, 1], [40, 1]], 1, [64, 50, 1]), ([[1, 1], [8, 1], [64, 1]], 2, [300, 8, 1]),
              ([[1, 1], [3, 1], [40, 1]], 2, [250, 9, 2]), ([[1, 1], [3, 1], [40, 1]], 2, [130, 9, 1]),
-             ([[1, 1]] * 3, 3, [40, 40, 20]), ([[1, 1]] * 3, 2, [33, 1, 1])]
+             ([[1, 1]] * 3, 3, [40, 40, 20]), ([[1, 1]] * 3, 2, [33, 1, 1]),
+             # target chunk size 1 (every scale has 1x1x1 chunks)
+             ([[1, 1]] * 3, 0, [6, 5, 4]), ([[1, 1], [2, 1], [2, 1]], 0, [6, 3, 2]),
+             # sizes that are 1 modulo the chunk size on every axis
+             ([[1, 1]] * 3, 2, [9, 13, 5]), ([[1, 1]] * 3, 3, [17, 9, 9])]
 
     def build(res, T, size, maxs):
         if size[0] * size[1] * size[2] > 4600:
